@@ -95,6 +95,12 @@ class C19(Prop):
                 for mode in (("exhaust", "close", "drop") if ff is None else ("exhaust",)):
                     cases.append({"reader": "load_roots", "counts": counts, "n": 0, "k": k, "mode": mode,
                                   "fault": None if ff is None else fb, "fault_file": ff})
+        # the path handed over as pathlib.Path or as another os.PathLike object instead of str
+        for rd in ("csv_path", "xlsx_path"):
+            for spell in ("Path", "PathLike"):
+                for k, mode in ((0, "close"), (1, "close"), (1, "drop"), (3, "exhaust")):
+                    cases.append({"reader": rd, "n": 2, "k": k, "mode": mode, "fault": None, "spell": spell})
+                cases.append({"reader": rd, "n": 2, "k": 3, "mode": "exhaust", "fault": 1, "spell": spell})
         for rd in readers:
             for n in (1, 2, 3, 5) if tier == "quick" else (1, 2, 3, 4, 5, 7):
                 for k in range(0, n + 1):
@@ -183,6 +189,19 @@ class C19(Prop):
         gc.disable()       # "as soon as": nothing may have to wait for the cycle collector
         try:
             path = self._make_source(case, d)
+            if case.get("spell") == "Path":
+                import pathlib
+
+                path = pathlib.Path(path)
+            elif case.get("spell") == "PathLike":
+                class FsPath:
+                    def __init__(self, p):
+                        self.p = p
+
+                    def __fspath__(self):
+                        return self.p
+
+                path = FsPath(path)
             mark_baseline()
             rd = case["reader"]
             with warnings.catch_warnings():
